@@ -4,7 +4,7 @@ from fvgen import case, parse_case, parse_out
 
 RULE = ("nv_write on pairs with name/value lengths drawn from {0,1,2,126,127,128,129,300,65535,65536,70000}; nv_run on concatenated "
         "encodings (+ every prefix of a sample), on all strings up to length 5 (quick) / 6 (thorough) over the boundary alphabet "
-        "{0,1,2,0x7f,0x80,0x81,0xff}, on mutated encodings and random bytes; nv_write_big for components >= 2^31 (lengths only). "
+        "{0,1,2,0x7f,0x80,0x81,0xff}, on mutated encodings and random bytes, on headers announcing lengths near 2^31 (sums that do not fit 32 bits); nv_write_big for components >= 2^31 (lengths only). "
         "Non-trivial: a 4-byte length prefix, an incomplete trailing pair, or >= 2 pairs; distinct = distinct case lines. "
         "The harness additionally asserts, per case, that &[u8] and &mut [u8] iterators agree, that names/values are consecutive "
         "sub-slices (pointer arithmetic), fusedness and that into_inner is the undecoded suffix.")
@@ -82,6 +82,20 @@ def gen_cases(rng, tier):
             i = rng.randrange(len(m))
             m[i] = rng.choice([0, 1, 0x7f, 0x80, 0xff, rng.randrange(256)])
             yield case("nv_run", m), ["run", "mutated"]
+    # announced lengths near the top of the 31-bit range, alone and together (their sum with the header does not fit 32 bits):
+    # headers FF FF FF xx FF FF FF yy and mixes with small lengths, followed by nothing / a few bytes / complete pairs in front
+    tops = [0xFF, 0xFE, 0xFD, 0xFC, 0xFB, 0xFA, 0xF9, 0xF8, 0xF0, 0x80, 0x00]
+    def top(b):
+        return [0xFF, 0xFF, 0xFF, b]
+    for x in tops:
+        for y in tops if not quick else tops[:8]:
+            yield case("nv_run", top(x) + top(y) + [rng.randrange(256) for _ in range(rng.choice([0, 0, 1, 9]))]), ["run", "huge-lengths"]
+    for x in tops[:8]:
+        yield case("nv_run", top(x) + [rng.choice([0, 5, 127])] + [1, 2, 3]), ["run", "huge-lengths"]
+        yield case("nv_run", [rng.choice([0, 5, 127])] + top(x) + [1, 2, 3]), ["run", "huge-lengths"]
+        yield case("nv_run", enc([1, 2], [3]) + top(x) + top(0xFF) + [7] * 6), ["run", "huge-lengths"]
+        yield case("nv_run", [0xC0, 0, 0, 0] + top(x)), ["run", "huge-lengths"]
+        yield case("nv_run", [0x80 | rng.randrange(0x70, 0x80), 0xFF, 0xFF, rng.randrange(256)] * 2), ["run", "huge-lengths"]
     for _ in range(300 if quick else 20000):
         L = rng.randrange(0, 40)
         yield case("nv_run", [rng.choice(ALPHA + [rng.randrange(256)]) for _ in range(L)]), ["run", "random"]
@@ -97,7 +111,7 @@ def nontrivial(line, tags):
 
 
 def min_classes(tier):
-    return {"exhaustive-short": 19000, "prefix": 500, "mutated": 150, "big": 4}
+    return {"exhaustive-short": 19000, "prefix": 500, "mutated": 150, "big": 4, "huge-lengths": 100}
 
 
 def oracle(line, impl_line):
